@@ -17,6 +17,25 @@ ROUND = sys.argv[2] if len(sys.argv) > 2 else "2"
 FIRST = json.load(open(os.path.join(VERIF, "tools", f"seed_first_run_r{ROUND}.json")))
 
 
+def _needs_from_notes(notes):
+    """The paragraph / bullet block under the 'needed to manifest' heading (or the sentence itself)."""
+    ls = notes.splitlines()
+    for i, l in enumerate(ls):
+        if re.search(r"needed to manifest|needs to manifest|what is needed|needed to trigger", l, re.I):
+            if l.lstrip().startswith("#") or l.rstrip().endswith(":") or l.rstrip().endswith(":**"):
+                out = []
+                for l2 in ls[i + 1:]:
+                    if l2.lstrip().startswith("#"):
+                        break
+                    if l2.strip():
+                        out.append(l2.strip())
+                    elif out and len(" ".join(out)) > 200:
+                        break
+                return " ".join(out)
+            return re.sub(r"^[-*\s]+", "", l).replace("**", "")
+    return None
+
+
 def main():
     root = sys.argv[1] if len(sys.argv) > 1 else "/tmp/seeds2"
     head = subprocess.run(["git", "-C", "/repo", "rev-parse", "--short", "HEAD"], capture_output=True, text=True).stdout.strip()
@@ -40,7 +59,7 @@ def main():
         lines = [l.strip() for l in notes.splitlines() if l.strip()]
         title = re.sub(r"^#+\s*", "", lines[0]) if lines else ""
         title = re.sub(r"^C\d\d\s*/?\s*seed\s*\d\s*[-–]+\s*", "", title)
-        needs = next((l.lstrip("-* ").strip() for l in lines[1:] if re.search(r"needs|manifest", l, re.I)), "")
+        needs = _needs_from_notes(notes) or next((l.lstrip("-* ").strip() for l in lines[1:] if re.search(r"needs|manifest", l, re.I)), "")
         meta = {
             "property": prop,
             "round": int(ROUND),
